@@ -96,6 +96,9 @@ def make_tasks():
     class Scripted(Task):
         def execute(self, stage):  # noqa: ANN001
             w = WORLD[stage.context["chain"]]
+            hook = w.pop("body_hook", None)
+            if hook is not None:
+                hook()        # something another worker does WHILE this task body executes (e.g. a recovery sweep)
             n = w["n"]
             w["n"] = n + 1
             act = act_at(w["spec"], n)
@@ -291,6 +294,26 @@ def run_scenario(env: ProcEnv, scn: dict, rng, ctx=None, verbose: bool = False) 
                 injected = env.handle_with_concurrent_writer(m, scn.get("conc_k") or (1 + (rid + step) % 3), c["stage"])
                 if injected:
                     ctx_tags.add("concurrent-writer")
+            elif op == "h" and (rid * 3 + step) % 4 == 1:
+                # another worker's recovery sweep runs WHILE the task body executes (its RunTask is claimed and in flight,
+                # whatever attempt it is - the last one included): the sweep must not re-queue the task
+                swept = []
+
+                def sweep_now(_swept=swept):
+                    from stabilize import SqliteQueue, SqliteWorkflowStore
+                    from stabilize.recovery import WorkflowRecovery
+
+                    st2 = SqliteWorkflowStore(env.url, create_tables=False)
+                    q2 = SqliteQueue(env.url, lock_duration=timedelta(hours=1), max_attempts=env.queue.max_attempts)
+                    _swept.append(WorkflowRecovery(store=st2, queue=q2).recover_pending_workflows())
+
+                world["body_hook"] = sweep_now
+                try:
+                    env.handle_and_ack(m)
+                finally:
+                    world.pop("body_hook", None)
+                if swept:
+                    ctx_tags.add("sweep-during-task-body")
             else:
                 env.handle_and_ack(m)
         except Exception as e:
